@@ -1,5 +1,8 @@
 """C17 - HTTP body framing and content coding are lossless and honour negotiation.
 
+Sub-checks: codec / reject (function level), l2 (real request handler on in-memory streams), clients + notify + wiring (socket-free provider,
+consumer and soap clients), wire (vf.c17_aio: the soap clients on their real transports over loop-back TCP).
+
 Real code under observation: mk_chunks, HTTPReader.read_request_body/_read_dechunk/read_response_body, CompressionHandler,
 DispatchingRequestHandler (_read_request, _compress_if_supported, chunked/content-length writer), SoapClient._send_soap_request,
 SoapClientAsync.async_post_message_to, the provider's subscription managers (choice of the notification coding).
@@ -344,6 +347,30 @@ def w_reject(ctx: core.Ctx, arg):
                 return HTTPReader.read_request_body(_Msg({'Content-Length': str(len(data)), 'Content-Encoding': enc}, data))
             head = b'HTTP/1.1 200 Ok\r\nContent-Length: %d\r\nContent-Encoding: ' % len(data) + enc.encode('latin-1') + b'\r\n\r\n'
             return HTTPReader.read_response_body(_http_response(head, data))
+        if case % 7 == 3:
+            # the same coding list written as repeated header lines (RFC 7230 3.2.2): rejected, or decoded completely - never half
+            c1, c2 = rng.choice(registered), rng.choice(registered)
+            wire = L.ref_encode(c2, L.ref_encode(c1, body))
+            ctx.count(f'reject.repeated_header.{path}.cases')
+            try:
+                if path == 'request':
+                    raw_h = b'Content-Length: %d\r\nContent-Encoding: %s\r\nContent-Encoding: %s\r\n\r\n' % (len(wire), c1.encode(), c2.encode())
+                    msg = _Msg({}, wire)
+                    msg.headers = http.client.parse_headers(io.BytesIO(raw_h))     # the class the real request handler has in self.headers
+                    got = HTTPReader.read_request_body(msg)
+                else:
+                    head = b'HTTP/1.1 200 Ok\r\nContent-Length: %d\r\nContent-Encoding: %s\r\nContent-Encoding: %s\r\n\r\n' % (len(wire), c1.encode(), c2.encode())
+                    got = HTTPReader.read_response_body(_http_response(head, wire))
+            except Exception:  # noqa: BLE001
+                ctx.count(f'reject.repeated_header.{path}.rejected')
+            else:
+                if got == body:
+                    ctx.count(f'reject.repeated_header.{path}.decoded_completely')
+                else:
+                    ctx.witness(f'coding.repeated_header_first_only.{path}', f'body coded with {c1} and then {c2} (two Content-Encoding header lines) was '
+                                'returned half decoded', {'codings': [c1, c2], 'path': path, 'got_head': None if got is None else got[:30]})
+            ctx.case(('repeated_header', c1, c2, path))
+            continue
         if case % 3 == 0:
             enc = rng.choice(unknown)
             coded = rng.choice([body, L.ref_encode('gzip', body), L.ref_encode('lz4', body)])
@@ -414,6 +441,21 @@ def _raw_body(out: bytes) -> bytes:
     return out[i + 4:]
 
 
+def _check_length_headers(ctx, p, where, info):
+    """RFC 7230 3.3.2: a message with Transfer-Encoding must not carry Content-Length; Content-Length must not be repeated with different values."""
+    cl = [v for k, v in p.headers if k.lower() == 'content-length']
+    te = [v for k, v in p.headers if k.lower() == 'transfer-encoding']
+    ctx.count(f'framing.length_headers_checked.{where}')
+    if te and cl:
+        ctx.witness(f'framing.length_and_chunked.{where}', 'message carries Transfer-Encoding AND Content-Length', {**info, 'headers': p.headers})
+    elif len(set(x.strip() for x in cl)) > 1 or len(te) > 1:
+        ctx.witness(f'framing.length_header_repeated.{where}', 'message carries several different Content-Length / Transfer-Encoding headers',
+                    {**info, 'headers': p.headers})
+    ce = [v for k, v in p.headers if k.lower() == 'content-encoding']
+    if len(ce) > 1:
+        ctx.witness(f'coding.header_repeated.{where}', 'message carries several Content-Encoding headers', {**info, 'headers': p.headers})
+
+
 def _check_response(ctx, res, want_body, header, enabled, chunk_size, info, where='response'):
     if res.escaped is not None or res.spin is not None or not res.responses or not res.responses[0].complete:
         ctx.witness('l2.valid_request_failed', 'a valid request did not produce a complete response',
@@ -424,6 +466,7 @@ def _check_response(ctx, res, want_body, header, enabled, chunk_size, info, wher
         ctx.witness('l2.valid_request_status', f'a valid request was answered with {p.status}', {**info, 'resp': p.as_dict()})
         return None
     te = p.header('transfer-encoding')
+    _check_length_headers(ctx, p, where, info)
     if chunk_size > 0:
         if (te or '').lower() != 'chunked':
             ctx.witness('chunk.not_used', 'server.chunk_size > 0 but the response is not chunked', info)
@@ -513,6 +556,8 @@ def w_l2(ctx: core.Ctx, arg):
             _keepalive_case(ctx, rng, reg, echo, enabled, cs_out, registered)
         if case % 4 == 1:
             _rejected_then_next(ctx, rng, enabled, cs_out, registered)
+        if case % 5 == 2:
+            _repeated_header_case(ctx, rng, case // 5, enabled, cs_out, registered)
 
 
 def _rejected_then_next(ctx, rng, enabled, cs_out, registered):
@@ -572,6 +617,46 @@ def _rejected_then_next(ctx, rng, enabled, cs_out, registered):
                         {**info, 'statuses': statuses, 'seen': [None if x is None else len(x) for x in echo.seen]})
     else:
         ctx.count('reject_then_next.connection_closed')
+
+
+def _repeated_header_case(ctx, rng, k, enabled, cs_out, registered):
+    """Content-Encoding given in two header lines = the list "c1, c2" (RFC 7230 3.2.2): the body was coded with c1, then with c2.  The
+    library supports no lists of codings: the message is rejected (as it is when the list is written in one line), or - if an
+    implementation did support it - the component gets the original; it never gets a half decoded body."""
+    from sdc11073.dispatch import PathElementRegistry
+    echo = Echo()
+    reg = PathElementRegistry()
+    reg.register_instance('echo', echo)
+    srv = L.FakeServer(reg, cs_out, list(enabled))
+    pairs = [(a, b) for a in registered for b in registered]
+    c1, c2 = pairs[k % len(pairs)] if k < 2 * len(pairs) else rng.choice(pairs)
+    body, kind = gen_body(rng, rng.randrange(1, 3000))
+    wire = L.ref_encode(c2, L.ref_encode(c1, body))
+    one_line = k % 3 == 2
+    hdrs = [('Host', 'x')] + ([('Content-Encoding', f'{c1}, {c2}')] if one_line else [('Content-Encoding', c1), ('Content-Encoding', c2)])
+    chunked = rng.random() < 0.3
+    if chunked:
+        hdrs.append(('Transfer-Encoding', 'chunked'))
+        wire = L.ref_chunk(wire, [rng.randrange(5, 600)])
+    else:
+        hdrs.append(('Content-Length', str(len(wire))))
+    res = L.feed(srv, L.mk_request('POST', '/echo', hdrs, wire), methods=['POST'])
+    info = {'codings': [c1, c2], 'one_line': one_line, 'chunked': chunked, 'len': len(body), 'kind': kind, 'enabled': list(enabled)}
+    ctx.count('repeated_header.request.cases')
+    ctx.case(('repeated_header', c1, c2, one_line, chunked))
+    if res.escaped is not None or res.spin is not None or not res.responses:
+        ctx.witness('l2.rejected_request_failed', 'a request in an unsupported / corrupt coding made the handler fail',
+                    {**info, 'escaped': repr(res.escaped), 'spin': res.spin, 'tb': res.escaped_tb})
+        return
+    status = res.responses[0].status
+    if status is not None and status >= 400 and not echo.seen:
+        ctx.count('repeated_header.request.rejected')
+    elif echo.seen == [body]:
+        ctx.count('repeated_header.request.decoded_completely')
+    else:
+        ctx.witness('coding.repeated_header_first_only.request',
+                    f'request coded with {c1} and then {c2} (Content-Encoding in {"one line" if one_line else "two header lines"}): the component was '
+                    'handed a body that is not the original', {**info, 'status': status, 'seen_head': [None if x is None else x[:30] for x in echo.seen]})
 
 
 def _keepalive_case(ctx, rng, reg, echo, enabled, cs_out, registered):
@@ -635,6 +720,7 @@ def _keepalive_case(ctx, rng, reg, echo, enabled, cs_out, registered):
             ctx.witness('l2.valid_request_status', f'a valid request was answered with {p.status}', {**info, 'index': j, 'resp': p.as_dict()})
             continue
         chosen = p.header('content-encoding')
+        _check_length_headers(ctx, p, 'response', {**info, 'index_on_connection': j})
         judge_choice(ctx, 'response', header, chosen, enabled, {**info, 'index_on_connection': j, 'accept_encoding': header, 'content_encoding': chosen})
         got = p.body
         if chosen is not None:
@@ -675,6 +761,8 @@ def w_clients(ctx: core.Ctx, arg):
     from sdc11073.httpserver.compression import CompressionHandler
     from sdc11073.definitions_sdc import SdcV1Definitions
     from .. import c13env as E
+    from .. import c17_aio as A
+    A.install_async_fake(E)
     rng = ctx.rng('clients', arg['i'])
     registered = list(CompressionHandler.available_encodings)
     net = E.Net()
@@ -718,7 +806,14 @@ def w_clients(ctx: core.Ctx, arg):
                 cl.connect()
                 _, got = cl._send_soap_request('/echo', body, 'c17')
         except Exception as ex:  # noqa: BLE001
-            ctx.witness('client.valid_exchange_failed', f'client raised {type(ex).__name__} in an exchange of valid messages', {**info, 'ex': repr(ex)})
+            res = seen.get('res')
+            coding = res.responses[0].header('content-encoding') if res is not None and res.responses else None
+            if coding is not None and res.responses[0].status == 200:
+                ctx.witness(f'client.coded_response_rejected.{info["client"]}', f'valid response in the coding {coding!r} that the client advertised '
+                            f'was not decoded: {type(ex).__name__}', {**info, 'response_coding': coding, 'ex': repr(ex)[:300]})
+            else:
+                ctx.witness('client.valid_exchange_failed', f'client raised {type(ex).__name__} in an exchange of valid messages', {**info, 'ex': repr(ex)})
+            ctx.count(f'clients.exchanges.{info["client"]}')
             continue
         ctx.count(f'clients.exchanges.{info["client"]}')
         request = seen.get('request', b'')
@@ -738,6 +833,8 @@ def w_clients(ctx: core.Ctx, arg):
         else:
             ctx.count('clients.request_identity')
         if 'transfer-encoding' in hl:
+            if 'content-length' in hl:
+                ctx.witness(f'framing.length_and_chunked.{info["client"]}_client', 'request carries Transfer-Encoding: chunked AND Content-Length', detail)
             payload, why = L.check_chunked(wire)
             ctx.count('clients.request_chunked')
             if why is not None:
@@ -755,7 +852,9 @@ def w_clients(ctx: core.Ctx, arg):
             ctx.witness('roundtrip.l2_request', 'component received something else than the body that was sent', detail)
         # what the client advertises must be what it has enabled
         adv = hl.get('accept-encoding')
-        if adv is not None or supported:
+        if use_async and not supported:
+            ctx.count('clients.async_transport_default_accept_encoding')   # aiohttp advertises (and decodes) its own codings when given no header
+        elif adv is not None or supported:
             # http.client itself adds "Accept-Encoding: identity" when the caller gives none
             adv_set = [x.strip() for x in (adv or '').split(',') if x.strip() and x.strip() != 'identity']
             if sorted(adv_set) != sorted(supported):
@@ -778,10 +877,12 @@ def w_clients(ctx: core.Ctx, arg):
 def w_notify(ctx: core.Ctx, arg):
     from decimal import Decimal
     from .. import c13env as E
+    from .. import c17_aio as A
+    A.install_async_fake(E)
     mode = arg['mode']
     rng = ctx.rng('notify', mode, arg['i'])
     net = E.Net()
-    provider, psrv = E.mk_provider(net, mode=mode)
+    provider, psrv = E.mk_provider(net, mode=mode, chunk_size=arg.get('chunk', 0))
     consumer, _ = E.mk_consumer(net, provider)
     sub_req = [e['request'] for e in net.log if b'/Subscribe<' in e['request'] and b'EpisodicMetricReport' in e['request']]
     if not sub_req:
@@ -834,29 +935,76 @@ def w_notify(ctx: core.Ctx, arg):
                 ctx.count(f'notify.{mode}.no_notification')
                 continue
             for request in reqs:
-                head, _, wire = request.partition(b'\r\n\r\n')
-                m = re.search(rb'(?im)^content-encoding:[ \t]*(.*?)[ \t]*\r?$', head)
-                chosen = m.group(1).decode('latin-1') if m else None
-                ctx.count(f'notify.{mode}.notifications')
-                ctx.count(f'notify.{mode}.notifications_' + ('coded' if chosen else 'identity'))
-                verdict = judge_choice(ctx, 'notification', h, chosen, enabled,
-                                       {'subscribe_accept_encoding': h, 'content_encoding': chosen, 'enabled': enabled, 'manager': mode})
-                try:
-                    dec = L.ref_decode(chosen, wire) if chosen else wire
-                    okxml = b'EpisodicMetricReport' in dec
-                except Exception:  # noqa: BLE001
-                    okxml = False
-                if not okxml:
-                    ctx.witness('roundtrip.notification', 'notification on the wire does not decode to the report', {'accept': h, 'content_encoding': chosen})
+                chosen, verdict = _judge_notification(ctx, mode, 'notification', request, h, enabled)
                 ctx.case(('notify', mode, label, header_shape(h), chosen, verdict))
         ctx.sample({'sub': 'notify', 'manager': mode, 'round': label, 'enabled': enabled, 'subscriptions': accepted_subs,
                     'notified': sum(len(v) for v in got.values())})
-        # drop the subscriptions of this round
-        for mgr in provider._subscriptions_managers.values():
-            with mgr._subscriptions.lock:
-                for s in list(mgr._subscriptions.objects):
-                    s.close_by_subscription_manager()
-                    mgr._subscriptions.remove_object(s)
+        _drop_subscriptions(provider)
+    # --- live subscriptions: the set of locally enabled codings changes WHILE the subscription (and its soap client) exists
+    from sdc11073.httpserver.compression import CompressionHandler
+    registered = list(CompressionHandler.available_encodings)
+    provider.set_used_compression(*registered)
+    by_netloc.clear()
+    got.clear()
+    live = {}
+    for i, h in enumerate(registered + [','.join(registered), ','.join(reversed(registered)), '*']):
+        netloc = f'127.0.0.1:{61000 + i}'
+        head, _, body = seed.partition(b'\r\n\r\n')
+        body = body.replace(b'127.0.0.1:%d' % E.CONSUMER_PORT, netloc.encode())
+        lines = [ln for ln in head.split(b'\r\n') if not ln.lower().startswith((b'accept-encoding', b'content-length'))]
+        lines += [b'Accept-Encoding: ' + h.encode('latin-1'), b'Content-Length: %d' % len(body)]
+        res = L.feed(psrv, b'\r\n'.join(lines) + b'\r\n\r\n' + body)
+        if res.responses and res.responses[0].status == 200:
+            by_netloc[netloc] = h
+            live[netloc] = h
+    steps = [list(registered), ['x-lz4'], ['gzip'], [], ['lz4', 'gzip'], list(registered)]
+    steps += [rng.sample(registered, rng.randrange(0, len(registered) + 1)) for _ in range(arg['n'] // 4)]
+    for step, enabled_now in enumerate(steps):
+        provider.set_used_compression(*enabled_now)
+        got.clear()
+        with provider.mdib.metric_state_transaction() as tr:
+            st = tr.get_state('numeric.ch1.vmd0')
+            st.MetricValue.Value = Decimal(100 + step)
+        for netloc, h in live.items():
+            for request in got.get(netloc, []):
+                ctx.count(f'notify.{mode}.live_notifications')
+                chosen, verdict = _judge_notification(ctx, mode, 'notification_live', request, h, list(enabled_now))
+                ctx.case(('notify_live', mode, tuple(enabled_now), h, chosen, verdict))
+    _drop_subscriptions(provider)
+
+
+def _drop_subscriptions(provider):
+    for mgr in provider._subscriptions_managers.values():
+        with mgr._subscriptions.lock:
+            for s in list(mgr._subscriptions.objects):
+                s.close_by_subscription_manager()
+                mgr._subscriptions.remove_object(s)
+
+
+def _judge_notification(ctx, mode, where, request, h, enabled):
+    head, _, wire = request.partition(b'\r\n\r\n')
+    m = re.search(rb'(?im)^content-encoding:[ \t]*(.*?)[ \t]*\r?$', head)
+    chosen = m.group(1).decode('latin-1') if m else None
+    ctx.count(f'notify.{mode}.notifications')
+    ctx.count(f'notify.{mode}.notifications_' + ('coded' if chosen else 'identity'))
+    detail = {'subscribe_accept_encoding': h, 'content_encoding': chosen, 'enabled': enabled, 'manager': mode}
+    verdict = judge_choice(ctx, where, h, chosen, enabled, detail)
+    if re.search(rb'(?im)^transfer-encoding:[ \t]*chunked', head):
+        ctx.count(f'notify.{mode}.notifications_chunked')
+        if re.search(rb'(?im)^content-length:', head):
+            ctx.witness(f'framing.length_and_chunked.{mode}_client', 'notification carries Transfer-Encoding: chunked AND Content-Length', detail)
+        wire, why = L.check_chunked(wire)
+        if why is not None:
+            ctx.witness('chunk.writer_invalid_framing', f'notification violates RFC 7230 4.1: {why}', detail)
+            return chosen, verdict
+    try:
+        dec = L.ref_decode(chosen, wire) if chosen else wire
+        okxml = b'EpisodicMetricReport' in dec
+    except Exception:  # noqa: BLE001
+        okxml = False
+    if not okxml:
+        ctx.witness('roundtrip.notification', 'notification on the wire does not decode to the report', {'accept': h, 'content_encoding': chosen})
+    return chosen, verdict
 
 
 # ---------------------------------------------------------------------------------------------------------------
@@ -926,13 +1074,379 @@ def w_wiring(ctx: core.Ctx, arg):
         pass
 
 
+# ---------------------------------------------------------------------------------------------------------------
+# (7) the clients on their REAL transports (aiohttp / http.client over TCP) against a scripted peer and the real server:
+#     what is really on the wire (framing headers included) and what really happens to a coded / hostile response
+# ---------------------------------------------------------------------------------------------------------------
+def _wire_headers(req):
+    return {k.lower(): v for k, v in req.headers}
+
+
+def _judge_wire_request(ctx, req, body, supported, accepted, client, info):
+    """request as the real transport put it on the wire: framing valid HTTP/1.1, coding negotiated, payload decodes to the message."""
+    if req.problem is not None:
+        ctx.witness('chunk.writer_invalid_framing', f'client request on the wire cannot be delimited: {req.problem}', {**info, 'head': req.raw_head[:300]})
+        return
+    ctx.count(f'wire.requests.{client}')
+    chosen = req.header('content-encoding')
+    detail = {**info, 'content_encoding': chosen}
+    has_te, has_cl = bool(req.all_headers('transfer-encoding')), bool(req.all_headers('content-length'))
+    if has_te:
+        ctx.count(f'wire.requests_chunked.{client}')
+        if has_cl:
+            # RFC 7230 3.3.2: "A sender MUST NOT send a Content-Length header field in any message that contains a Transfer-Encoding
+            # header field" - such a message is what 3.3.3 calls a possible request smuggling attempt
+            ctx.witness(f'framing.length_and_chunked.{client.split(".")[0]}_client', 'request carries Transfer-Encoding: chunked AND Content-Length',
+                        {**detail, 'head': req.raw_head[:400]})
+        payload, why = L.check_chunked(req.raw_body)
+        if why is not None:
+            ctx.witness('chunk.writer_invalid_framing', f'client request violates RFC 7230 4.1: {why}', {**detail, 'tail': req.raw_body[-40:]})
+            return
+    else:
+        payload = req.raw_body
+        if req.method == 'POST' and not has_cl:
+            ctx.witness(f'framing.no_length.{client.split(".")[0]}_client', 'POST request without Content-Length and without chunked framing', detail)
+    if req.method != 'POST':
+        return
+    if chosen is not None:
+        ctx.count('wire.request_coded')
+        if chosen not in supported:
+            ctx.witness('negotiation.locally_disabled.client_request', f'client sent Content-Encoding {chosen!r}, enabled locally: {supported}', detail)
+        if chosen not in accepted:
+            ctx.witness('negotiation.not_offered.client_request', f'client sent Content-Encoding {chosen!r}, peer accepts {accepted}', detail)
+    try:
+        dec = L.ref_decode(chosen, payload) if chosen else payload
+    except Exception as ex:  # noqa: BLE001
+        dec = repr(ex)
+    if dec != body:
+        ctx.witness('roundtrip.client_request', 'request on the wire does not decode to the message', detail)
+
+
+HOSTILE_TOKENS = ['foo', 'br', 'compress', 'x-unknown', 'gzi', 'zip', 'GZIP', 'X-LZ4', 'deflate', 'identity']
+
+
+def _plan_response(rng, A, plan, req, resp_body, registered):
+    """-> (response bytes, description dict, set of values the client may return besides raising)."""
+    from sdc11073.httpserver.compression import CompressionHandler
+    chunk_sizes = [rng.randrange(1, 4000) for _ in range(rng.randrange(1, 4))] if rng.random() < 0.5 else None
+    kind = plan['kind']
+    if kind == 'valid':
+        st, items = ref_accept(req.header('accept-encoding'))
+        usable = [c for c in registered if st == 'ok' and acceptable(items, c)]
+        want = plan.get('coding', '?')
+        coding = want if want in usable else (rng.choice(usable) if usable and want == '?' and rng.random() < 0.8 else None)
+        if coding is None:
+            return A.mk_response(body=resp_body, chunk_sizes=chunk_sizes), {'coding': None, 'chunked': bool(chunk_sizes)}, {resp_body}
+        if rng.random() < 0.3:
+            wire, how = CompressionHandler.compress_payload(coding, resp_body), 'library'
+        else:
+            wire, how = A.ref_encode_var(rng, coding, resp_body)
+        return (A.mk_response(headers=[('Content-Encoding', coding)], body=wire, chunk_sizes=chunk_sizes, upper=rng.random() < 0.2),
+                {'coding': coding, 'encoder': how, 'chunked': bool(chunk_sizes)}, {resp_body})
+    if kind == 'unsupported':
+        token = plan.get('token') or rng.choice(HOSTILE_TOKENS)
+        really = {'gzip': 'gzip', 'x-lz4': 'lz4', 'lz4': 'lz4', 'deflate': 'deflate', 'identity': None}.get(token.lower(), 'none')
+        shape = plan.get('shape') or rng.choice(['plain', 'plain', 'really', 'other'])
+        allowed = set()
+        if shape == 'really' and really != 'none':
+            wire = A.ref_encode_var(rng, really, resp_body)[0] if really else resp_body
+            allowed = {resp_body}      # a transport that knows the token (case-insensitively) and decodes it correctly is not a misinterpretation
+        elif shape == 'other':
+            wire = L.ref_encode(rng.choice(['gzip', 'lz4']), resp_body)
+            if really in ('gzip', 'lz4', 'deflate'):
+                try:
+                    if L.ref_decode(really, wire) == resp_body:
+                        allowed = {resp_body}
+                except Exception:  # noqa: BLE001
+                    pass
+        else:
+            wire = resp_body
+            if really is None:
+                allowed = {resp_body}   # identity = no coding
+        return (A.mk_response(headers=[('Content-Encoding', token)], body=wire, chunk_sizes=chunk_sizes),
+                {'token': token, 'shape': shape, 'chunked': bool(chunk_sizes)}, allowed)
+    if kind == 'repeated':
+        # two header lines are the list "gzip, gzip" (RFC 7230 3.2.2): the body is coded twice
+        c1, c2 = plan.get('pair') or (rng.choice(registered), rng.choice(registered))
+        inner = L.ref_encode(c1, resp_body)
+        wire = L.ref_encode(c2, inner)
+        return (A.mk_response(headers=[('Content-Encoding', c1), ('Content-Encoding', c2)], body=wire, chunk_sizes=chunk_sizes),
+                {'codings': [c1, c2], 'chunked': bool(chunk_sizes)}, {resp_body})
+    # corrupt stream in a coding the client advertised (or any registered one)
+    st, items = ref_accept(req.header('accept-encoding'))
+    usable = [c for c in registered if st == 'ok' and acceptable(items, c)] or registered
+    coding = plan.get('coding') if plan.get('coding') in usable else rng.choice(usable)
+    good = L.ref_encode(coding, resp_body)
+    how, bad = _mutate_stream(rng, good)
+    if how == 'random' and not bad:
+        how, bad = 'truncate', good[:len(good) // 2]
+    if plan.get('mutation') == 'plain_not_coded':
+        how, bad = 'plain_not_coded', b'<xml>plain text that was never compressed</xml>'
+    allowed = {resp_body}
+    try:
+        allowed.add(L.ref_decode(coding, bad))     # the coding cannot detect it (e.g. lz4 without checksum): not the client's fault
+    except Exception:  # noqa: BLE001
+        pass
+    return (A.mk_response(headers=[('Content-Encoding', coding)], body=bad, chunk_sizes=chunk_sizes),
+            {'coding': coding, 'mutation': how, 'chunked': bool(chunk_sizes)}, allowed)
+
+
+def _is_watchdog(ex):
+    import asyncio
+    import socket
+    return isinstance(ex, (asyncio.TimeoutError, socket.timeout, TimeoutError))
+
+
+def w_wire(ctx: core.Ctx, arg):
+    import asyncio
+    from sdc11073.definitions_sdc import SdcV1Definitions
+    from sdc11073.httpserver.compression import CompressionHandler
+    from sdc11073.pysoap.soapclient import SoapClient
+    from sdc11073.pysoap.soapclient_async import SoapClientAsync
+    from .. import c17_aio as A
+    rng = ctx.rng('wire', arg['i'])
+    registered = list(CompressionHandler.available_encodings)
+    try:
+        peer = A.RawPeer()
+    except OSError as ex:
+        ctx.not_decided(f'loop-back sockets not available for the wire sub-check: {ex!r}')
+        return
+    loop = asyncio.new_event_loop()
+    state = {}
+
+    def script(req):
+        out, desc, allowed = _plan_response(state['rng'], A, state['plan'], req, state['resp_body'], registered)
+        state['desc'], state['allowed'] = desc, allowed
+        return out
+    peer.script = script
+    # directed sessions first (worker 0): every client kind x every registered coding x response kind, then seeded sessions
+    directed = []
+    if arg['i'] == 0:
+        for client in ('async.post', 'sync.post', 'sync.get'):
+            for c in registered:
+                directed.append((client, [c], [{'kind': 'valid', 'coding': c}, {'kind': 'valid', 'coding': c}, {'kind': 'corrupt', 'coding': c}]))
+            directed.append((client, list(registered), [{'kind': 'valid', 'coding': c} for c in reversed(registered)]))
+            directed.append((client, list(registered), [{'kind': 'unsupported', 'token': 'foo', 'shape': 'plain'}]))
+            directed.append((client, list(registered), [{'kind': 'unsupported', 'token': 'br', 'shape': 'plain'}]))
+            directed.append((client, list(registered), [{'kind': 'repeated', 'pair': ('gzip', 'gzip')}]))
+            for c in ('gzip', 'x-lz4'):
+                directed.append((client, list(registered), [{'kind': 'corrupt', 'coding': c, 'mutation': 'plain_not_coded'}]))
+            directed.append((client, [], [{'kind': 'valid'}, {'kind': 'unsupported', 'token': 'x-unknown', 'shape': 'other'}]))
+    supported_sets = [list(registered), ['gzip'], ['x-lz4'], ['lz4'], ['x-lz4', 'gzip'], list(reversed(registered)), []]
+    for sess in range(arg['n']):
+        if sess < len(directed):
+            client, supported, plans = directed[sess]
+            supported = list(supported)
+        else:
+            client = rng.choice(['async.post', 'async.post', 'sync.post', 'sync.get'])
+            supported = list(rng.choice(supported_sets))
+            plans = [{'kind': 'valid'} for _ in range(rng.randrange(1, 4))]
+            if rng.random() < 0.5:
+                plans.append({'kind': rng.choice(['unsupported', 'corrupt', 'corrupt', 'repeated'])})
+        accepted = rng.choice([[], [], ['gzip'], ['x-lz4'], ['lz4', 'gzip'], ['br', 'gzip'], ['*'], list(registered)])
+        cs = rng.choice([0, 0, gen_chunk_size(rng)])
+        kind_cls = client.split('.')[0]
+        reader = A.XmlReader()
+        if kind_cls == 'async':
+            cl = SoapClientAsync(peer.netloc, A.WATCHDOG_S, L.NullLogger(), None, SdcV1Definitions, reader, supported, list(accepted), cs)
+        else:
+            cl = SoapClient(peer.netloc, A.WATCHDOG_S, L.NullLogger(), None, SdcV1Definitions, reader, supported, list(accepted), cs)
+        ctx.count(f'wire.sessions.{kind_cls}')
+        for idx, plan in enumerate(plans):
+            n = gen_size(rng, cs, False) % (6000 if 0 < cs < 32 else 70000)
+            body, bkind = A.xml_body(rng, n)
+            # multi-megabyte bodies only in valid responses: aiohttp 3.14.3 itself dies (SIGSEGV in its C parser) on a gzip member of a
+            # multi-megabyte body followed by garbage when auto_decompress is on (scratch/c17_aiohttp_segv.py) - not the library under test
+            big = arg.get('big') and plan['kind'] == 'valid' and rng.random() < 0.006
+            resp_body, rkind = A.xml_body(rng, rng.randrange(1 << 20, 4 << 20) if big else gen_size(rng, 512, False), 'repeat' if big else None)
+            state.update(rng=rng, plan=plan, resp_body=resp_body, desc=None, allowed=None)
+            info = {'client': client, 'supported': supported, 'peer_accepts': accepted, 'chunk_size': cs, 'len': len(body), 'kind': bkind,
+                    'response_plan': plan, 'exchange_on_client': idx}
+            n_req = len(peer.requests)
+            got, exc = None, None
+            try:
+                if client == 'async.post':
+                    r = loop.run_until_complete(cl.async_post_message_to('/c17', A.Created(body)))
+                    got = None if r is None else r.data
+                elif client == 'sync.post':
+                    r = cl.post_message_to('/c17', A.Created(body), 'c17')
+                    got = None if r is None else r.data
+                else:
+                    got = cl.get_from_url('/c17/?wsdl', 'c17')
+            except Exception as ex:  # noqa: BLE001
+                exc = ex
+            if peer.timed_out or peer.errors or (exc is not None and _is_watchdog(exc)):
+                ctx.not_decided(f'wire rig: watchdog / socket problem (timed_out={peer.timed_out}, errors={peer.errors[:2]}, exc={exc!r})')
+                break
+            if len(peer.requests) != n_req + 1:
+                if exc is not None and len(peer.requests) == n_req:
+                    ctx.witness('client.valid_exchange_failed', f'client raised {type(exc).__name__} before a request reached the peer', {**info, 'ex': repr(exc)})
+                else:
+                    ctx.witness('client.request_count', f'one call of the client produced {len(peer.requests) - n_req} requests', info)
+                break
+            req = peer.requests[-1]
+            desc, allowed = state['desc'], state['allowed']
+            info = {**info, 'response': desc}
+            _judge_wire_request(ctx, req, body, supported, accepted, client, info)
+            adv = req.header('accept-encoding')
+            if kind_cls == 'sync' or supported:
+                adv_set = [x.strip() for x in (adv or '').split(',') if x.strip() and x.strip() != 'identity']
+                if sorted(adv_set) != sorted(supported):
+                    ctx.witness('negotiation.client_advertises_disabled', f'client advertises Accept-Encoding {adv!r} but has enabled {supported}', info)
+            else:
+                ctx.count('wire.async_transport_default_accept_encoding')   # aiohttp advertises (and decodes) its own codings
+            ex_txt = None if exc is None else repr(exc)[:300]
+            if plan['kind'] == 'valid':
+                coded = desc['coding'] is not None
+                ctx.count(f'wire.response.{"coded" if coded else "identity"}.{kind_cls}')
+                if coded:
+                    ctx.count(f'wire.response.coded.{kind_cls}.{desc["coding"]}')
+                if exc is not None:
+                    if coded:
+                        ctx.witness(f'client.coded_response_rejected.{kind_cls}',
+                                    f'{client}: valid response in the coding {desc["coding"]!r} that the client advertised ({adv!r}) was not decoded: '
+                                    f'{type(exc).__name__}', {**info, 'ex': ex_txt})
+                    else:
+                        ctx.witness('client.valid_exchange_failed', f'client raised {type(exc).__name__} in an exchange of valid messages', {**info, 'ex': ex_txt})
+                elif (got or b'') != resp_body:
+                    ctx.witness(f'roundtrip.wire_response.{kind_cls}', 'client did not return the body the peer sent',
+                                {**info, 'got_head': None if got is None else got[:60], 'want_head': resp_body[:60]})
+                else:
+                    ctx.count(f'wire.response.returned_intact.{kind_cls}')
+            else:
+                ctx.count(f'wire.hostile.{plan["kind"]}.{kind_cls}')
+                if exc is not None:
+                    ctx.count(f'wire.hostile.rejected.{kind_cls}')
+                elif got in allowed:
+                    ctx.count(f'wire.hostile.original_recovered.{kind_cls}')
+                else:
+                    key = {'unsupported': 'coding.unsupported_accepted', 'repeated': 'coding.repeated_header_first_only',
+                           'corrupt': 'coding.corrupt_accepted'}[plan['kind']] + f'.{kind_cls}_client'
+                    ctx.witness(key, f'{client}: response in an unsupported / corrupt coding ({desc}) was returned as if decoded',
+                                {**info, 'got_head': None if got is None else got[:60], 'body_head': resp_body[:60]})
+            shape = ('wire', client, tuple(supported), bool(cs), req.header('content-encoding'), plan['kind'],
+                     tuple(sorted((k, str(v)) for k, v in (desc or {}).items() if k != 'encoder')), exc is None, _size_class(len(resp_body)))
+            ctx.case(shape)
+            if sess < 2 and idx == 0:
+                ctx.sample({'sub': 'wire', **info, 'request_head': req.raw_head[:300], 'returned': exc is None})
+            if plan['kind'] != 'valid' or exc is not None:
+                break       # the state of a client after a rejected response is not part of the property
+        try:
+            if kind_cls == 'async':
+                loop.run_until_complete(cl.async_close())
+            else:
+                cl.close()
+        except Exception:  # noqa: BLE001
+            pass
+        if ctx.inconclusive:
+            break
+    peer.stop()
+    if arg['i'] == 0 and not ctx.inconclusive:
+        _wire_real_server(ctx, rng, loop, registered)
+    loop.close()
+
+
+def _wire_real_server(ctx, rng, loop, registered):
+    """both ends are the library: real HttpServerThreadBase (echo component) <- TCP -> real clients; every combination of what the
+    server has enabled and what the client has enabled must deliver the message and its echo intact."""
+    import logging
+    from sdc11073.definitions_sdc import SdcV1Definitions
+    from sdc11073.httpserver.httpserverimpl import HttpServerThreadBase
+    from sdc11073.pysoap.soapclient import SoapClient
+    from sdc11073.pysoap.soapclient_async import SoapClientAsync
+    from .. import c17_aio as A
+    sent_codings = []
+    for srv_enabled, srv_chunk in ((list(registered), 0), (list(reversed(registered)), 7), (['x-lz4'], 4096), (['lz4', 'gzip'], 0)):
+        echo = Echo()
+        echo.get_body = b''
+        srv = HttpServerThreadBase('127.0.0.1', None, srv_enabled, logging.getLogger('c17.null'), chunk_size=srv_chunk)
+        srv.start()
+        if not srv.started_evt.wait(A.WATCHDOG_S):
+            ctx.not_decided('real http server thread did not start')
+            return
+        base = srv.httpd.RequestHandlerClass
+
+        class Probe(base):
+            def send_header(self, keyword, value):
+                if keyword.lower() == 'content-encoding':
+                    sent_codings.append(value)
+                super().send_header(keyword, value)
+        srv.httpd.RequestHandlerClass = Probe
+        srv.dispatcher.register_instance('echo', echo)
+        netloc = f'127.0.0.1:{srv.server_port}'
+        try:
+            for supported in [[c] for c in registered] + ([] if srv_chunk else [list(registered)]):
+                for client in ('async.post', 'sync.post', 'sync.get'):
+                    kind_cls = client.split('.')[0]
+                    cs = rng.choice([0, 5, 512])
+                    body, bkind = A.xml_body(rng, rng.choice([0, 40, 3000, 70000]))
+                    echo.get_body = body
+                    echo.seen.clear()
+                    del sent_codings[:]
+                    info = {'client': client, 'client_enabled': supported, 'server_enabled': srv_enabled, 'server_chunk': srv_chunk, 'chunk_size': cs,
+                            'len': len(body), 'kind': bkind}
+                    cls = SoapClientAsync if kind_cls == 'async' else SoapClient
+                    cl = cls(netloc, A.WATCHDOG_S, L.NullLogger(), None, SdcV1Definitions, A.XmlReader(), supported, [], cs)
+                    got, exc = None, None
+                    try:
+                        if client == 'async.post':
+                            r = loop.run_until_complete(cl.async_post_message_to('/echo', A.Created(body)))
+                            got = None if r is None else r.data
+                        elif client == 'sync.post':
+                            r = cl.post_message_to('/echo', A.Created(body), 'c17')
+                            got = None if r is None else r.data
+                        else:
+                            got = cl.get_from_url('/echo/?wsdl', 'c17')
+                    except Exception as ex:  # noqa: BLE001
+                        exc = ex
+                    finally:
+                        try:
+                            if kind_cls == 'async':
+                                loop.run_until_complete(cl.async_close())
+                            else:
+                                cl.close()
+                        except Exception:  # noqa: BLE001
+                            pass
+                    if exc is not None and _is_watchdog(exc):
+                        ctx.not_decided(f'wire rig (real server): watchdog {exc!r}')
+                        return
+                    ctx.count(f'wire.real_server.exchanges.{kind_cls}')
+                    coding = sent_codings[0] if sent_codings else None
+                    info['response_coding'] = coding
+                    if coding is not None:
+                        ctx.count(f'wire.real_server.response_coded.{kind_cls}')
+                        judge_choice(ctx, 'response', ','.join(supported), coding, srv_enabled, info)
+                    if client != 'sync.get' and echo.seen != [body]:
+                        ctx.witness('roundtrip.l2_request', 'component received something else than the body that was sent',
+                                    {**info, 'seen': [None if s is None else len(s) for s in echo.seen]})
+                    if exc is not None:
+                        if coding is not None:
+                            ctx.witness(f'client.coded_response_rejected.{kind_cls}',
+                                        f'{client}: the library\'s own server answered in {coding!r} (advertised by the client: {supported}); the client '
+                                        f'did not decode it: {type(exc).__name__}', {**info, 'ex': repr(exc)[:300]})
+                        else:
+                            ctx.witness('client.valid_exchange_failed', f'client raised {type(exc).__name__} in an exchange of valid messages',
+                                        {**info, 'ex': repr(exc)[:300]})
+                    elif (got or b'') != body:
+                        ctx.witness(f'roundtrip.wire_response.{kind_cls}', 'client did not return the body the server sent',
+                                    {**info, 'got_head': None if got is None else got[:60]})
+                    ctx.case(('wire.real', client, tuple(supported), tuple(srv_enabled), bool(srv_chunk), bool(cs), coding, exc is None))
+        finally:
+            srv.stop()
+
+
 def run(ctx: core.Ctx):
     ctx.rule = ('codec: (coding, chunk size, body length, body kind) through mk_chunks/compress_payload and the three readers; reject: '
                 '(unknown token | registered coding x stream mutation) x path; l2: real request handler with an echo component, '
                 'case = (method, parsed shape of Accept-Encoding, locally enabled set, request/response framing, request coding, verdict); '
                 'clients: real SoapClient/SoapClientAsync against it; notify: Subscribe with header H at a real provider, coding of the '
-                'notification it then sends (sync + async managers, 4 set_used_compression settings); wiring: set_used_compression on '
-                'real internal http servers.  distinct = hash of that shape; non-trivial = every case (empty bodies included on purpose)')
+                'notification it then sends (sync + async managers, 4 set_used_compression settings; then live subscriptions while '
+                'set_used_compression changes; providers with and without chunking); wiring: set_used_compression on real internal http '
+                'servers; wire: SoapClientAsync on the real aiohttp / SoapClient on the real http.client over loop-back TCP against a scripted '
+                'peer (case = client kind, enabled codings, request framing + coding, kind of response: valid in an advertised coding | '
+                'unsupported token | repeated header | corrupt stream, framing of the response, outcome) and against the real http server; '
+                'repeated_header: body coded twice, Content-Encoding in two lines or one.  distinct = hash of that shape; non-trivial = every '
+                'case (empty bodies included on purpose)')
     q = ctx.quick
     jobs = []
     for i in range(6 if q else 16):
@@ -946,8 +1460,35 @@ def run(ctx: core.Ctx):
     for mode in ('sync', 'async'):
         for i in range(1 if q else 2):
             jobs.append(['w_notify', {'mode': mode, 'i': i, 'n': 20 if q else 400}])
+    # providers that chunk their notifications (chunk size 1 in thorough: every byte its own chunk)
+    jobs.append(['w_notify', {'mode': 'sync', 'i': 10, 'n': 20 if q else 200, 'chunk': 13}])
+    if not q:
+        jobs.append(['w_notify', {'mode': 'async', 'i': 10, 'n': 200, 'chunk': 512}])
+        jobs.append(['w_notify', {'mode': 'sync', 'i': 11, 'n': 100, 'chunk': 1}])
+    for i in range(3 if q else 8):
+        jobs.append(['w_wire', {'i': i, 'n': 60 if q else 3000, 'big': not q}])
     jobs.append(['w_wiring', {}])
     core.fanout(ctx, MODULE, 'dispatch', jobs)
+    ctx.floor('wire.requests.async.post', 40)
+    ctx.floor('wire.requests.sync.post', 25)
+    ctx.floor('wire.requests.sync.get', 25)
+    ctx.floor('wire.requests_chunked.async.post', 5)
+    ctx.floor('wire.response.coded.async', 25)
+    ctx.floor('wire.response.coded.sync', 30)
+    ctx.floor('wire.response.coded.async.gzip', 4)
+    ctx.floor('wire.response.coded.async.x-lz4', 2)
+    ctx.floor('wire.response.coded.async.lz4', 2)
+    ctx.floor('wire.hostile.unsupported.async', 3)
+    ctx.floor('wire.hostile.unsupported.sync', 6)
+    ctx.floor('wire.hostile.corrupt.sync', 6)
+    ctx.floor('wire.real_server.exchanges.async', 10)
+    ctx.floor('wire.real_server.response_coded.async', 6)
+    ctx.floor('repeated_header.request.cases', 100)
+    ctx.floor('reject.repeated_header.request.cases', 30)
+    ctx.floor('framing.length_headers_checked.response', 800)
+    ctx.floor('notify.sync.live_notifications', 60)
+    ctx.floor('notify.async.live_notifications', 30)
+    ctx.floor('notify.sync.notifications_chunked', 60)
     ctx.floor('codec.mk_chunks', 1500)
     ctx.floor('codec.request_path.chunked.mk_chunks', 1500)
     ctx.floor('codec.response_path.chunked', 1500)
@@ -972,7 +1513,12 @@ def run(ctx: core.Ctx):
         'Accept-Encoding values that are not valid per RFC 7231 5.3.4 (broken q-value, other parameters, contradictory duplicates) have no defined '
         'meaning: the chosen coding is recorded, not judged; an absent header is judged as "nothing declared acceptable"',
         'a corrupt stream counts as misinterpreted only if the independent decoder rejects it and the library returns bytes different from the original',
-        'aiohttp is replaced by a fake session that renders the request as HTTP/1.1 bytes (the async client code itself is real)',
+        'clients/notify sub-checks: aiohttp is replaced by a fake session that renders the request as HTTP/1.1 bytes (the async client code '
+        'itself is real); wire sub-check: real aiohttp and real http.client over loop-back TCP (needs 127.0.0.1 sockets; socket time-outs are '
+        'watchdogs only and make the run inconclusive)',
+        'repeated Content-Encoding header lines are the comma separated list (RFC 7230 3.2.2), i.e. a body coded several times; a coding token the '
+        'transport itself knows case-insensitively (aiohttp: GZIP, deflate) and decodes correctly does not count as misinterpreted',
+        'a message that carries Transfer-Encoding: chunked together with Content-Length is not valid HTTP/1.1 framing (RFC 7230 3.3.2 sender MUST NOT)',
     ]
 
 
